@@ -4,6 +4,7 @@
   laplacian_smoothing.go).  The frame of these operations is in `Props/C03.lean`.
 -/
 import PolyVerif.Props.C03Values
+import PolyVerif.Lemmas.MeshCorners
 
 namespace PolyVerif.C03
 open PolyVerif PolyVerif.Gen PolyVerif.Mesh PolyVerif.Mesh.MeshVal
@@ -339,5 +340,22 @@ theorem lastFace_unwelded (pos : List R3) : ∀ (ts : List (Nat × Nat × Nat)),
       simp only [hnone, hv, if_true, hc]
     · have ih := lastFace_unwelded pos ts hnd.2.2.2 t ht' v hv c hc
       simp [ih]
+
+/-- **FlatNormals on an unwelded mesh** (index buffer without repetition, e.g. the `0..k-1` of `Unweld`): every corner
+    `v` of every triangle `t` gets the normal of its OWN face — `normalize(normalize(c))`, i.e. the unit face normal
+    `c/|c|` when the face is non-degenerate — independently of the order in which the triangles are visited. -/
+theorem flatNormalAt_unwelded (pos : List R3) (idx : List Nat) (hlen : idx.length % 3 = 0) (hnd : idx.Nodup)
+    (t : Nat × Nat × Nat) (ht : t ∈ triples idx) (v : Nat) (hv : t.1 = v ∨ t.2.1 = v ∨ t.2.2 = v)
+    (c : R3) (hc : triCross pos t = some c) :
+    flatNormalAt pos (triples idx) v = c.Normalized.Normalized ∧
+    (c ≠ ⟨0, 0, 0⟩ → flatNormalAt pos (triples idx) v = c.Normalized ∧ (flatNormalAt pos (triples idx) v).Length = 1) := by
+  have hnd' : (untriples (triples idx)).Nodup := by rw [MeshVal.untriples_triples idx hlen]; exact hnd
+  have hl := lastFace_unwelded pos (triples idx) hnd' t ht v hv c hc
+  have h1 : flatNormalAt pos (triples idx) v = c.Normalized.Normalized := by simp [flatNormalAt, hl]
+  refine ⟨h1, fun hne => ?_⟩
+  obtain ⟨hi, hu⟩ := normalized_idem c hne
+  rw [h1, hi]; exact ⟨rfl, hu⟩
+
+example : (List.range 6).Nodup ∧ (List.range 6).length % 3 = 0 := by decide
 
 end PolyVerif.C03
